@@ -136,6 +136,10 @@ CONTEXTS = {
     "array-size": (lambda d, e: X.nta(d + "int arr[%s + 1];" % e, [T()], SYS), True),
     "range-bound": (lambda d, e: X.nta(d + "int[0, %s + 5] r;" % e, [T()], SYS), True),
     "instantiation-argument": (lambda d, e: X.nta(d, [T(params="const int p")], "P = T(%s); system P;" % e), True),
+    "argument-of-a-partial-instance": (lambda d, e: X.nta(d, [T(params="const int p, const int p2")], "Q(const int c) = T(c, 5); P = Q(%s); system P;" % e), True),
+    "argument-of-a-partial-instance-of-one": (lambda d, e: X.nta(d, [T(params="const int p, const int p2")],
+                                                                    "Q(const int c, const int c2) = T(c, c2); R(const int r) = Q(r, 1); P = R(%s); system P;" % e), True),
+    "argument-inside-a-partial-instance": (lambda d, e: X.nta(d, [T(params="const int p, const int p2")], "Q(const int c) = T(c, %s); P = Q(1); system P;" % e), True),
     "forall-body": (lambda d, e: X.nta(d, [T(guard="forall (i : int[0,1]) %s + i >= 0" % e)], SYS), False),
     "exists-body": (lambda d, e: X.nta(d, [T(guard="exists (i : int[0,1]) %s + i >= 0" % e)], SYS), False),
     "sum-body": (lambda d, e: X.nta(d, [T(guard="(sum (i : int[0,1]) %s) >= 0" % e)], SYS), False),
